@@ -114,7 +114,9 @@ func ms(d int64) int64 { return time.Now().UnixMilli() + d }
 func (g *gen) next() scenario {
 	g.n++
 	pfx := fmt.Sprintf("s%d-", g.n)
-	switch rapid.IntRange(0, 9).Draw(g.t, "scenario") {
+	switch rapid.IntRange(0, 11).Draw(g.t, "scenario") {
+	case 10, 11:
+		return g.statusWalk(pfx)
 	case 0, 1, 2:
 		return g.mutatedRequest(pfx)
 	case 3:
@@ -289,6 +291,192 @@ func (g *gen) registration(pfx string) scenario {
 	}
 	if rapid.Bool().Draw(g.t, "complete") {
 		sc.steps = append(sc.steps, step{HTTPReq: HTTPReq{Method: "PATCH", Path: "/promises/" + p, Body: `{"state":"RESOLVED"}`}})
+	}
+	return sc
+}
+
+// statusWalk: perfectly ordinary client behaviour that the server must REFUSE, through both protocols: every
+// refusal status of the kernel (task not claimed / already claimed / wrong counter / finished, lock held by another
+// execution, released by a stranger, promise or schedule already there / gone / already completed, registration on a
+// missing promise) has to be rendered by each front end. A status one front end cannot render crashes or drops.
+func (g *gen) statusWalk(pfx string) scenario {
+	sc := scenario{name: "status-walk", pfx: pfx}
+	id := pfx + "p"
+	tid := "__invoke:" + id
+	addH := func(m, path string, body any, note string) {
+		st := step{HTTPReq: HTTPReq{Method: m, Path: path}, mutation: note}
+		if body != nil {
+			st.HTTPReq = post(path, body, nil)
+			st.HTTPReq.Method = m
+		}
+		sc.steps = append(sc.steps, st)
+	}
+	addG := func(name string, f func(c *GrpcClients, ctx context.Context) error) {
+		sc.steps = append(sc.steps, step{HTTPReq: HTTPReq{Method: "GRPC", Path: name, Grpc: f}, mutation: "status-walk " + name})
+	}
+	viaGrpc := func(l string) bool { return rapid.Bool().Draw(g.t, l) }
+	claim := func(counter int, proc string) {
+		if viaGrpc("g.claim") {
+			addG("ClaimTask", func(c *GrpcClients, ctx context.Context) error {
+				_, err := c.Tasks.ClaimTask(ctx, &pb.ClaimTaskRequest{Id: tid, Counter: int32(counter), ProcessId: proc, Ttl: 60000})
+				return err
+			})
+		} else {
+			addH("POST", "/tasks/claim", map[string]any{"id": tid, "counter": counter, "processId": proc, "ttl": 60000}, "status-walk claim")
+		}
+	}
+	complete := func(counter int) {
+		if viaGrpc("g.complete") {
+			addG("CompleteTask", func(c *GrpcClients, ctx context.Context) error {
+				_, err := c.Tasks.CompleteTask(ctx, &pb.CompleteTaskRequest{Id: tid, Counter: int32(counter)})
+				return err
+			})
+		} else {
+			addH("POST", "/tasks/complete", map[string]any{"id": tid, "counter": counter}, "status-walk complete")
+		}
+	}
+	switch rapid.IntRange(0, 3).Draw(g.t, "walk") {
+	case 0, 1: // task life cycle in a drawn order, with right and wrong counters, before and after the promise completes
+		addH("POST", "/promises", map[string]any{"id": id, "timeout": ms(60000), "tags": map[string]any{"resonate:invoke": "poll://sw/" + pfx}}, "routed promise => task")
+		for i := rapid.IntRange(2, 6).Draw(g.t, "nops"); i > 0; i-- {
+			switch rapid.IntRange(0, 3).Draw(g.t, "taskop") {
+			case 0:
+				claim(rapid.IntRange(0, 2).Draw(g.t, "ccounter"), g.pick([]string{"w1", "w2"}, "cproc"))
+			case 1:
+				complete(rapid.IntRange(0, 2).Draw(g.t, "dcounter"))
+			case 2:
+				if viaGrpc("g.hb") {
+					addG("HeartbeatTasks", func(c *GrpcClients, ctx context.Context) error {
+						_, err := c.Tasks.HeartbeatTasks(ctx, &pb.HeartbeatTasksRequest{ProcessId: "w1"})
+						return err
+					})
+				} else {
+					addH("POST", "/tasks/heartbeat", map[string]any{"processId": "w1"}, "status-walk heartbeat")
+				}
+			default:
+				if viaGrpc("g.resolve") {
+					addG("ResolvePromise", func(c *GrpcClients, ctx context.Context) error {
+						_, err := c.Promises.ResolvePromise(ctx, &pb.ResolvePromiseRequest{Id: id})
+						return err
+					})
+				} else {
+					addH("PATCH", "/promises/"+esc(id), map[string]any{"state": "RESOLVED"}, "status-walk resolve")
+				}
+			}
+		}
+	case 2: // locks: held by another execution, released by a stranger, heartbeat of nobody
+		res := pfx + "res"
+		for i := rapid.IntRange(2, 5).Draw(g.t, "nlock"); i > 0; i-- {
+			ex := g.pick([]string{"e1", "e2"}, "lex")
+			switch rapid.IntRange(0, 2).Draw(g.t, "lockop") {
+			case 0:
+				if viaGrpc("g.acq") {
+					addG("AcquireLock", func(c *GrpcClients, ctx context.Context) error {
+						_, err := c.Locks.AcquireLock(ctx, &pb.AcquireLockRequest{ResourceId: res, ExecutionId: ex, ProcessId: "w", Ttl: 60000})
+						return err
+					})
+				} else {
+					addH("POST", "/locks/acquire", map[string]any{"resourceId": res, "executionId": ex, "processId": "w", "ttl": 60000}, "status-walk acquire")
+				}
+			case 1:
+				if viaGrpc("g.rel") {
+					addG("ReleaseLock", func(c *GrpcClients, ctx context.Context) error {
+						_, err := c.Locks.ReleaseLock(ctx, &pb.ReleaseLockRequest{ResourceId: res, ExecutionId: ex})
+						return err
+					})
+				} else {
+					addH("POST", "/locks/release", map[string]any{"resourceId": res, "executionId": ex}, "status-walk release")
+				}
+			default:
+				if viaGrpc("g.lhb") {
+					addG("HeartbeatLocks", func(c *GrpcClients, ctx context.Context) error {
+						_, err := c.Locks.HeartbeatLocks(ctx, &pb.HeartbeatLocksRequest{ProcessId: "w"})
+						return err
+					})
+				} else {
+					addH("POST", "/locks/heartbeat", map[string]any{"processId": "w"}, "status-walk lock heartbeat")
+				}
+			}
+		}
+	default: // promises, registrations and schedules: already there, gone, already completed
+		sid := pfx + "sch"
+		for i := rapid.IntRange(3, 7).Draw(g.t, "nmisc"); i > 0; i-- {
+			g1 := viaGrpc("g.misc")
+			switch rapid.IntRange(0, 6).Draw(g.t, "miscop") {
+			case 0:
+				if g1 {
+					addG("CreatePromise", func(c *GrpcClients, ctx context.Context) error {
+						_, err := c.Promises.CreatePromise(ctx, &pb.CreatePromiseRequest{Id: id, Timeout: ms(60000), Strict: true})
+						return err
+					})
+				} else {
+					addH("POST", "/promises", map[string]any{"id": id, "timeout": ms(60000)}, "status-walk create")
+				}
+			case 1:
+				st := g.pick([]string{"RESOLVED", "REJECTED", "REJECTED_CANCELED"}, "mstate")
+				if g1 {
+					addG("CompletePromise:"+st, func(c *GrpcClients, ctx context.Context) error {
+						var err error
+						switch st {
+						case "RESOLVED":
+							_, err = c.Promises.ResolvePromise(ctx, &pb.ResolvePromiseRequest{Id: id, Strict: true})
+						case "REJECTED":
+							_, err = c.Promises.RejectPromise(ctx, &pb.RejectPromiseRequest{Id: id, Strict: true})
+						default:
+							_, err = c.Promises.CancelPromise(ctx, &pb.CancelPromiseRequest{Id: id, Strict: true})
+						}
+						return err
+					})
+				} else {
+					addH("PATCH", "/promises/"+esc(id), map[string]any{"state": st}, "status-walk complete promise")
+				}
+			case 2:
+				if g1 {
+					addG("CreateCallback", func(c *GrpcClients, ctx context.Context) error {
+						_, err := c.Callbacks.CreateCallback(ctx, &pb.CreateCallbackRequest{Id: "cb", PromiseId: id, RootPromiseId: pfx + "root", Timeout: ms(60000), Recv: &pb.Recv{Recv: &pb.Recv_Logical{Logical: "default"}}})
+						return err
+					})
+				} else {
+					addH("POST", "/callbacks", map[string]any{"id": pfx + "cb", "promiseId": id, "rootPromiseId": pfx + "root", "timeout": ms(60000), "recv": "default"}, "status-walk callback")
+				}
+			case 3:
+				if g1 {
+					addG("CreateSubscription", func(c *GrpcClients, ctx context.Context) error {
+						_, err := c.Subscriptions.CreateSubscription(ctx, &pb.CreateSubscriptionRequest{Id: "s", PromiseId: id, Timeout: ms(60000), Recv: &pb.Recv{Recv: &pb.Recv_Logical{Logical: "default"}}})
+						return err
+					})
+				} else {
+					addH("POST", "/subscriptions", map[string]any{"id": pfx + "s", "promiseId": id, "timeout": ms(60000), "recv": "default"}, "status-walk subscription")
+				}
+			case 4:
+				if g1 {
+					addG("CreateSchedule", func(c *GrpcClients, ctx context.Context) error {
+						_, err := c.Schedules.CreateSchedule(ctx, &pb.CreateScheduleRequest{Id: sid, Cron: "0 0 1 1 *", PromiseId: pfx + "y.{{.timestamp}}", PromiseTimeout: 1000})
+						return err
+					})
+				} else {
+					addH("POST", "/schedules", map[string]any{"id": sid, "cron": "0 0 1 1 *", "promiseId": pfx + "y.{{.timestamp}}", "promiseTimeout": 1000}, "status-walk schedule")
+				}
+			case 5:
+				if g1 {
+					addG("DeleteSchedule", func(c *GrpcClients, ctx context.Context) error {
+						_, err := c.Schedules.DeleteSchedule(ctx, &pb.DeleteScheduleRequest{Id: sid})
+						return err
+					})
+				} else {
+					addH("DELETE", "/schedules/"+esc(sid), nil, "status-walk delete schedule")
+				}
+			default:
+				if g1 {
+					addG("ReadSchedule", func(c *GrpcClients, ctx context.Context) error {
+						_, err := c.Schedules.ReadSchedule(ctx, &pb.ReadScheduleRequest{Id: sid})
+						return err
+					})
+				} else {
+					addH("GET", "/promises/"+esc(id), nil, "status-walk read")
+				}
+			}
+		}
 	}
 	return sc
 }
@@ -619,7 +807,16 @@ func (o outcome) bad() bool { return o.died || o.wedged }
 
 // minimize finds a small list of scenarios (then requests) that still kills or wedges the server.
 func minimize(dir string, scs []scenario) []scenario {
-	fails := func(x []scenario) bool { return len(x) > 0 && runBatch(dir, x, false).bad() }
+	// bounded: a wedge costs every probing run its full waiting time; the violation is reported with the smallest
+	// list found within the budget rather than lost to the test deadline
+	budget := 100 * time.Second
+	if core.Tier() == "thorough" {
+		budget = 8 * time.Minute
+	}
+	stop := time.Now().Add(budget)
+	fails := func(x []scenario) bool {
+		return len(x) > 0 && time.Now().Before(stop) && runBatch(dir, x, false).bad()
+	}
 	cur := scs
 	for len(cur) > 1 {
 		mid := len(cur) / 2
